@@ -390,9 +390,11 @@ func wListener(iters int) {
 		var wg sync.WaitGroup
 		var cmu sync.Mutex
 		var conns []net.Conn
+		acceptDone := make(chan struct{})
 		wg.Add(1)
 		go func() {
 			defer wg.Done()
+			defer close(acceptDone)
 			for {
 				c, err := l.Accept()
 				if err != nil {
@@ -450,6 +452,7 @@ func wListener(iters int) {
 		}
 		l.Close()
 		atomic.StoreInt32(&stop, 1)
+		<-acceptDone // a connection handed out by an Accept racing with Close must be closed too
 		cmu.Lock()
 		for _, c := range conns {
 			c.Close()
